@@ -18,8 +18,17 @@
   array the source stores (`_obs_spectrum`) is exactly the encoding of those rows, so every statement "of row `i` itself" is
   a statement about row `i` of the source's array.
 
+  The file loaders (tied in `Props/C17Src.lean`: `src_load_from_hdf5`, `src_taurexspectrum_init`,
+  `src_observedspectrum_init`).  A TauREx HDF5 file is described by the rows `file` = `(wn, spectrum, noise, wn width)` of
+  its four `Output/Spectra/instrument_*` datasets; a text file by the rows of the array `np.loadtxt` returns for its name.
+    * `srcHdf5 fn file` = the array the regenerated `TaurexSpectrum._load_from_hdf5(fn)` returns; `src_taurex_roundtrip`
+      is `taurex_roundtrip` about it, read back through the regenerated properties.
+    * `srcTaurexInit fn file` / `srcObservedInit fc fn loadtxt` = the attributes after the regenerated
+      `TaurexSpectrum.__init__` / `ObservedSpectrum.__init__`; they ARE `srcInit` of the file's rows
+      (`srcTaurexInit_eq`, `srcObservedInit_eq`), so every statement below about `srcInit …` is a statement about the two
+      loaders; order independence is restated for each (`src_taurex_perm_invariant`, `src_observed_perm_invariant`).
+
   Not restated (no tie)
-    * `taurex_roundtrip`: about the model's `fromTaurex` (`TaurexSpectrum._load_from_hdf5`), which is not translated.
     * `midEdges_is_midpoint`: about the model's `midEdges`, a helper inside `computeBinEdges`; the tie is for the whole of
       `compute_bin_edges` (the conjunct of `edges_consistent3` that names `computeBinEdges` is restated).
 -/
@@ -172,5 +181,110 @@ theorem src_binner_aligned (fc : Bool) (rows : List (ORow ℝ)) (hd : (rows.map 
         (srcBinWidths fc rows)).map (fun t => fluxBinVal Row.s (nativeBins false native) t.lo t.hi) := by
   rw [srcBinner_eq, srcWn_eq, srcBinWidths_eq, srcBinModel_eq]
   exact binner_aligned fc rows hd hpos hlen native
+
+/-! ### the file loaders -/
+
+/-- the array the regenerated `TaurexSpectrum._load_from_hdf5(fn)` returns for a file whose datasets
+    `Output/Spectra/instrument_wngrid / _spectrum / _noise / _wnwidth` are the columns of `file` -/
+noncomputable def srcHdf5 (fn : String) (file : List (ORow ℝ)) : List (List ℝ) :=
+  SrcC17.load_from_hdf5 fn (h5_Output_Spectra_instrument_wngrid := some (file.map ORow.wl))
+    (h5_Output_Spectra_instrument_spectrum := some (file.map ORow.v))
+    (h5_Output_Spectra_instrument_noise := some (file.map ORow.e))
+    (h5_Output_Spectra_instrument_wnwidth := some (file.map ORow.bw))
+
+theorem srcHdf5_eq (fn : String) (file : List (ORow ℝ)) :
+    srcHdf5 fn file = (file.map fromTaurex).map (encode true) := src_load_from_hdf5 fn file
+
+/-- **taurex_roundtrip**, about the regenerated `_load_from_hdf5` and the regenerated properties: the array rows built
+    from a TauREx file, read back (`wavenumberGrid`; `wnwidth_to_wlwidth` of the wavelength column and the width column —
+    what `__init__` stores as `_wnwidths`; `spectrum`; `errorBar`), give the stored wavenumbers, the stored wavenumber
+    widths, spectrum and noise, element by element in file order (positive wavenumbers) -/
+theorem src_taurex_roundtrip (fn : String) (file : List (ORow ℝ)) (hpos : ∀ r ∈ file, 0 < r.wl) :
+    SrcC17.wavenumberGrid (srcHdf5 fn file) = file.map ORow.wl ∧
+    SrcC17.wnwidth_to_wlwidth (SrcC17.wavelengthGrid (srcHdf5 fn file))
+        ((srcHdf5 fn file).map (fun r => r.getD 3 0)) = file.map ORow.bw ∧
+    SrcC17.spectrum (srcHdf5 fn file) = file.map ORow.v ∧
+    SrcC17.errorBar (srcHdf5 fn file) = file.map ORow.e := by
+  rw [srcHdf5_eq]
+  let o : Obs ℝ := ⟨file.map fromTaurex, [], [], []⟩
+  have hw := src_wavenumberGrid true o
+  have hs := src_spectrum true o
+  have he := src_errorBar true o
+  have c3 : ((file.map fromTaurex).map (encode true)).map (fun r : List ℝ => r.getD 3 0)
+      = (file.map fromTaurex).map ORow.bw := by
+    simp [encode, List.map_map, Function.comp_def]
+  refine ⟨?_, ?_, ?_, ?_⟩
+  · rw [show (file.map fromTaurex) = o.rows from rfl, hw]
+    simp only [Obs.wavenumberGrid, o, List.map_map]
+    exact List.map_congr_left (fun r hr => (taurex_roundtrip r (hpos r hr)).1)
+  · rw [src_wavelengthGrid, c3, src_wnwidth_to_wlwidth _ _ (Or.inl (by simp)), zipWith_map_same, List.map_map]
+    exact List.map_congr_left (fun r hr => (taurex_roundtrip r (hpos r hr)).2.1)
+  · rw [show (file.map fromTaurex) = o.rows from rfl, hs]
+    simp [Obs.spectrum, o, List.map_map, Function.comp_def, fromTaurex]
+  · rw [show (file.map fromTaurex) = o.rows from rfl, he]
+    simp [Obs.errorBar, o, List.map_map, Function.comp_def, fromTaurex]
+
+/-- the attributes `(_obs_spectrum, _bin_widths, _bin_edges, _wnwidths)` after the regenerated
+    `TaurexSpectrum.__init__(fn)` -/
+noncomputable def srcTaurexInit (fn : String) (file : List (ORow ℝ)) : List (List ℝ) × List ℝ × List ℝ × List ℝ :=
+  SrcC17.taurexspectrum_init fn (h5_Output_Spectra_instrument_wngrid := some (file.map ORow.wl))
+    (h5_Output_Spectra_instrument_spectrum := some (file.map ORow.v))
+    (h5_Output_Spectra_instrument_noise := some (file.map ORow.e))
+    (h5_Output_Spectra_instrument_wnwidth := some (file.map ORow.bw)) (ncols := ncols true)
+
+/-- … are those of the regenerated `ArraySpectrum.__init__` on the converted rows -/
+theorem srcTaurexInit_eq (fn : String) (file : List (ORow ℝ)) :
+    srcTaurexInit fn file = srcInit true (file.map fromTaurex) := by
+  unfold srcTaurexInit; rw [src_taurexspectrum_init, srcInit_eq]
+
+/-- the loaded object's `wavenumberGrid` is a re-ordering of the stored `instrument_wngrid` (positive wavenumbers) -/
+theorem src_taurex_wn_perm (fn : String) (file : List (ORow ℝ)) (hpos : ∀ r ∈ file, 0 < r.wl) :
+    SrcC17.wavenumberGrid (srcTaurexInit fn file).1 ~ file.map ORow.wl := by
+  rw [srcTaurexInit_eq]
+  have h := srcWn_eq true (file.map fromTaurex)
+  unfold srcWn at h
+  rw [h, (rows_integrity true (file.map fromTaurex)).2.1]
+  have hp := ((rows_integrity true (file.map fromTaurex)).1).map (fun r : ORow ℝ => 10000 / r.wl)
+  refine hp.trans ?_
+  rw [List.map_map]
+  exact List.Perm.of_eq (List.map_congr_left (fun r hr => (taurex_roundtrip r (hpos r hr)).1))
+
+/-- **perm_invariant** for the HDF5 loader: two files holding the same rows in any two orders (distinct positive
+    wavenumbers) load to the same attributes -/
+theorem src_taurex_perm_invariant (fn₁ fn₂ : String) (file₁ file₂ : List (ORow ℝ)) (hp : file₁ ~ file₂)
+    (hd : (file₁.map ORow.wl).Nodup) (hpos : ∀ r ∈ file₁, 0 < r.wl) :
+    srcTaurexInit fn₁ file₁ = srcTaurexInit fn₂ file₂ := by
+  rw [srcTaurexInit_eq, srcTaurexInit_eq]
+  refine src_perm_invariant true _ _ (hp.map _) ?_
+  have e : (file₁.map fromTaurex).map ORow.wl = (file₁.map ORow.wl).map (fun x => 10000 / x) := by
+    simp [List.map_map, Function.comp_def, fromTaurex]
+  rw [e]
+  refine List.Nodup.map_on ?_ hd
+  intro x hx y hy hxy
+  obtain ⟨r, hr, rfl⟩ := List.mem_map.1 hx
+  obtain ⟨r', hr', rfl⟩ := List.mem_map.1 hy
+  have h1 := ne_of_gt (hpos r hr)
+  have h2 := ne_of_gt (hpos r' hr')
+  field_simp at hxy
+  linarith
+
+/-- the attributes after the regenerated `ObservedSpectrum.__init__(fn)`; `loadtxt` stands for `np.loadtxt` -/
+noncomputable def srcObservedInit (fc : Bool) (fn : String) (loadtxt : String → List (List ℝ)) :
+    List (List ℝ) × List ℝ × List ℝ × List ℝ :=
+  SrcC17.observedspectrum_init fn loadtxt (ncols fc)
+
+/-- … are those of the regenerated `ArraySpectrum.__init__` on the array `np.loadtxt` returned -/
+theorem srcObservedInit_eq (fc : Bool) (fn : String) (loadtxt : String → List (List ℝ)) (rows : List (ORow ℝ))
+    (h : loadtxt fn = rows.map (encode fc)) : srcObservedInit fc fn loadtxt = srcInit fc rows := by
+  unfold srcObservedInit; rw [src_observedspectrum_init fc fn loadtxt rows h, srcInit_eq]
+
+/-- **perm_invariant** for the text loader: two files whose arrays hold the same rows in any two orders (distinct
+    wavelengths) load to the same attributes -/
+theorem src_observed_perm_invariant (fc : Bool) (fn₁ fn₂ : String) (loadtxt : String → List (List ℝ))
+    (rows₁ rows₂ : List (ORow ℝ)) (h₁ : loadtxt fn₁ = rows₁.map (encode fc)) (h₂ : loadtxt fn₂ = rows₂.map (encode fc))
+    (hp : rows₁ ~ rows₂) (hd : (rows₁.map ORow.wl).Nodup) :
+    srcObservedInit fc fn₁ loadtxt = srcObservedInit fc fn₂ loadtxt := by
+  rw [srcObservedInit_eq fc fn₁ loadtxt rows₁ h₁, srcObservedInit_eq fc fn₂ loadtxt rows₂ h₂]
+  exact src_perm_invariant fc rows₁ rows₂ hp hd
 
 end Taurex.C17SrcProps
